@@ -16,6 +16,10 @@ package register
 //@   ensures[C19] one_create: each Store.Create(?u) -> _ => !(before Store.Create(_)) &&
 //@       before Hash.Generate(?pw) -> (?h, ?he) :: he == nil && Password(u) == h &&
 //@       before Body.Read(PageRegister) -> (?vals, ?re) :: re == nil && pw == val(vals, "GetPassword") && PID(u) == val(vals, "GetPID")
+//@   -- C19: the extra fields stored are the ones the body reader returned (which the default
+//@   -- reader restricts to the whitelist, defaults.(HTTPBodyReader).Read/register_extra_fields) or none
+//@   ensures[C19] extra_fields_as_read: each Store.Create(?u) -> _ => before Store.New() -> ?n :: before Body.Read(PageRegister) -> (?vals, _) ::
+//@       (Arbitrary(u) == val(vals, "GetValues", ref) || Arbitrary(u) == Arbitrary(n))
 //@   ensures[C19] created_is_new: each Store.Create(?u) -> _ => before Store.New() -> ?n :: n == u
 //@   ensures[C19,C01] duplicate_noop: each Store.Create(_) -> ?e => e != nil ==> (!emits Sess.Put(_, _) && !emits Store.Save(_) && !emits Redirect(_))
 //@   -- C01: the session is only written for the user this request created
